@@ -275,6 +275,37 @@ async fn run_input(input: &Input) -> WorkerResult {
     }
 }
 
+/// the oracle without the process boundary (libFuzzer target): the fuzzer process itself is the
+/// worker; panics, stack overflow, giant allocations and hangs end it and are re-decided by
+/// `check` (child worker) in the parent
+pub fn check_in_process(input: &Input, obs: &mut Obs) -> Result<(), Fail> {
+    let input2 = input.clone();
+    let res = std::thread::Builder::new()
+        .stack_size(2 << 20)
+        .spawn(move || {
+            let rt = world_runtime();
+            let r = rt.block_on(run_input(&input2));
+            drop(rt);
+            r
+        })
+        .expect("spawn")
+        .join();
+    match res {
+        Ok(r) => {
+            if r.reached_executor {
+                obs.nontrivial = true;
+                obs.class("reached-executor");
+            }
+            obs.maximum("requests", r.requests as u64);
+            if !r.ok {
+                return tolerate_known(obs, Fail::new(r.signature, format!("{}: {}", describe(input), r.message)));
+            }
+            Ok(())
+        }
+        Err(_) => Err(Fail::new("C16:panic", format!("{}: panic while handling the input", describe(input)))),
+    }
+}
+
 /// `umverif C16-WORKER`: one JSON case per line on stdin, one JSON result per line on stdout
 pub fn worker_main() {
     crate::alloc::ARMED.store(true, std::sync::atomic::Ordering::Relaxed);
@@ -507,8 +538,11 @@ pub fn check(input: &Input, obs: &mut Obs) -> Result<(), Fail> {
 
 pub const RULE: &str = "inputs executed in child worker processes (abort/stack overflow/refused allocation = observation): (a) byte streams: raw bytes over a RESP-biased alphabet, hostile length prefixes (*2^31, *2^62, $2^63-1, *-2, *10^9), nesting '*1\\r\\n' up to depth 200000, valid pipelines, truncations; (b) well-formed commands of every family the executor special-cases (UMCTL sub-commands, UMFORWARD, UMSYNC, CLUSTER, CONFIG, AUTH, EVAL/EVALSHA numkeys, MGET/MSET/MSETNX/DEL/EXISTS, B*POP timeouts, string commands with compression on) with arguments from {missing, empty, non-UTF-8, 0, -1, 2^62, 2^63-1, 2^64-1, 2^64, long digit strings, keywords, keys, long strings}, before and after metadata is set; fed through the real decoder and the real Session/ForwardHandler; oracle: process alive, no panic on any thread, peak live memory <= 16 MiB + 4096 x bytes received (a counting allocator refuses larger single requests), every request completes in bounded time (8 s wall, triple-confirmed; 3600 virtual s), a second connection still gets its PING answered; non-trivial = the input reached the executor or carries a hostile length prefix / nesting; distinct = hash of the input";
 
+pub const RULE_FUZZ: &str = "libFuzzer (coverage-guided, ASan, fixed -seed and -runs per worker process, fresh corpus seeded with golden command pipelines and a command dictionary): the bytes of one client connection (first byte: metadata installed or not), up to 2 KiB, fed through the real decoder and the real Session/ForwardHandler inside the fuzzer process; in-target oracle: every request completes (virtual time), a second connection is served, no panic on any thread (libFuzzer aborts on any panic), no allocation above 512 MiB, no input slower than 60 s; every crash artifact is re-decided by the child-worker oracle (the proptest sub-check's) before it is reported";
+
 pub fn run(ctx: &Ctx, findings: &Findings) -> PropReport {
     let mut subs = vec![];
+    let mut fuzz_note: Option<String> = None;
     CASE_THREADS.store(false, std::sync::atomic::Ordering::Relaxed);
     MAX_SHRINK_ITERS.store(40, std::sync::atomic::Ordering::Relaxed);
     if let Some(path) = &ctx.replay {
@@ -518,6 +552,25 @@ pub fn run(ctx: &Ctx, findings: &Findings) -> PropReport {
         }
     } else {
         subs.push(drive(ctx, findings, "inputs", RULE, ctx.cases(40000, 800000), strategy, &check));
+        if ctx.tier == Tier::Thorough {
+            let to_input = |bytes: &[u8]| Input::Bytes { with_meta: bytes.first().map(|b| b & 1 == 1).unwrap_or(false), pieces: vec![Piece::Raw(bytes.get(1..).unwrap_or(&[]).to_vec())] };
+            let spec = crate::fuzzing::FuzzSpec {
+                target: "c16_session",
+                sub: "inputs",
+                rule: RULE_FUZZ,
+                runs: ((150_000.0 * ctx.scale) as u64).max(500),
+                max_len: 2048,
+                timeout_s: 60,
+                malloc_limit_mb: 512,
+                // a crash artifact is re-decided by the child-worker oracle (process boundary, counting allocator)
+                confirm: &|bytes: &[u8], obs: &mut Obs| check(&to_input(bytes), obs),
+                case_of: &|bytes: &[u8]| serde_json::to_value(to_input(bytes)).unwrap(),
+            };
+            match crate::fuzzing::run_fuzz(ctx, findings, &spec) {
+                Some(r) => subs.push(r),
+                None => fuzz_note = Some(crate::fuzzing::fuzz_missing_note("c16_session")),
+            }
+        }
     }
     PropReport {
         level: "exploration",
@@ -526,7 +579,10 @@ pub fn run(ctx: &Ctx, findings: &Findings) -> PropReport {
             "the session is driven in-process (real decoder + real Session::handle_cmd + real ForwardHandler); the TCP accept loop itself is not in the loop".into(),
             "this is the one check where a wall-clock limit is part of the oracle (the property IS a time bound): 8 s per input, four orders of magnitude above the normal cost, confirmed in three fresh processes".into(),
             "worker threads use a 2 MiB stack like tokio's production workers".into(),
-        ],
+        ]
+        .into_iter()
+        .chain(fuzz_note)
+        .collect(),
         extra: Default::default(),
     }
 }
